@@ -529,6 +529,13 @@ func summary(sp Spec, res Result) map[string]any {
 			if s.Action == "dead" {
 				x += "/" + s.Reason
 			}
+			if len(s.Wire) > 0 { // part h: what the in-memory network was asked during this send
+				var w []string
+				for _, q := range s.Wire {
+					w = append(w, q.Method+" "+q.URL)
+				}
+				x += " {" + strings.Join(w, ", ") + "}"
+			}
 			l = append(l, x)
 		}
 		out[m.ID] = strings.Join(l, " ")
